@@ -11,7 +11,8 @@ from ..core import Failure
 ID = "C20"
 RULE = (
     "pairs (grid, variant) generated from hull/voronoi/lat-lon/solid meshes; variant kinds: identical rebuild, "
-    "copy(), one longitude changed, one latitude changed, both changed, one connectivity entry changed, two corners "
+    "copy(), one longitude changed, one latitude changed (by 1e-9..5 degrees or by one ulp), both changed, one connectivity "
+    "entry changed, a padded slot turned into a corner or a corner into padding (same table shape), two corners "
     "swapped, one extra node, one extra face, same arrays under another source format, non-Grid object. "
     "Non-trivial = a pair differing in exactly one lon / lat / connectivity entry or element count; distinct by case hash."
 )
@@ -24,8 +25,8 @@ BUDGET = {
     "thorough": dict(shards=16, examples=1500),
 }
 
-KINDS = ["same", "copy", "lon", "lat", "lonlat", "conn", "swap", "extra_node", "extra_face", "format", "nongrid"]
-NONTRIVIAL = {"lon", "lat", "conn", "swap", "extra_node", "extra_face"}
+KINDS = ["lon", "lat", "conn", "grow", "shrink", "ulp", "swap", "lonlat", "extra_node", "extra_face", "format", "nongrid", "same", "copy"]
+NONTRIVIAL = {"lon", "lat", "conn", "swap", "extra_node", "extra_face", "grow", "shrink", "ulp"}
 
 
 @st.composite
@@ -42,9 +43,13 @@ def _case(draw, tier):
         v["face"] = draw(st.integers(0, nf - 1))
         v["pos"] = draw(st.integers(0, 7))
         v["shift"] = draw(st.integers(1, max(1, nn - 1)))
-    elif kind == "swap":
+    elif kind in ("swap", "grow", "shrink"):
         v["face"] = draw(st.integers(0, nf - 1))
         v["pos"] = draw(st.integers(0, 7))
+    elif kind == "ulp":
+        v["index"] = draw(st.integers(0, nn - 1))
+        v["coord"] = draw(st.sampled_from([0, 1]))
+        v["sign"] = draw(st.sampled_from([-1, 1]))
     elif kind == "extra_face":
         v["face"] = draw(st.integers(0, nf - 1))
     elif kind == "nongrid":
@@ -91,6 +96,25 @@ def _variant_mesh(mesh, v):
         p = v["pos"] % len(f)
         q = (p + 1) % len(f)
         f[p], f[q] = f[q], f[p]
+    if k == "ulp":
+        i, c = v["index"], v["coord"]
+        old = m["nodes"][i][c]
+        lim = 179.0 if c == 0 else 89.0
+        target = -1e9 if (v["sign"] < 0 and old > -lim) or old >= lim else 1e9
+        m["nodes"][i][c] = float(np.nextafter(old, target))
+    if k == "grow":
+        # a padded slot becomes a corner: prefer a face shorter than the table width
+        W = max(len(f) for f in m["faces"])
+        short = [i for i, f in enumerate(m["faces"]) if len(f) < W]
+        fi = short[v["face"] % len(short)] if short else v["face"]
+        f = m["faces"][fi]
+        cand = [n for n in range(len(m["nodes"])) if n not in f]
+        if cand:
+            f.append(cand[v["pos"] % len(cand)])
+    if k == "shrink":
+        big = [i for i, f in enumerate(m["faces"]) if len(f) > 3]
+        if big:
+            m["faces"][big[v["face"] % len(big)]].pop()
     if k == "extra_node":
         m["nodes"].append([12.25, -33.5])
     if k == "extra_face":
@@ -104,7 +128,15 @@ def run_case(case, ctx):
     mesh, v = case["mesh"], case["variant"]
     k = v["kind"]
     fails = []
-    g1 = build.grid_from_mesh(mesh)
+    W = max(len(f) for f in mesh["faces"])
+
+    def mk(m):
+        INT_DTYPE, FILL = build.consts()
+        nodes = np.asarray(m["nodes"], float)
+        w = max(W, max(len(f) for f in m["faces"]))
+        return ux.Grid.from_topology(nodes[:, 0].copy(), nodes[:, 1].copy(), build.padded_faces(m, width=w), fill_value=FILL)
+
+    g1 = mk(mesh)
 
     def chk(oracle, cond, detail):
         ctx.ev(oracle)
@@ -138,11 +170,11 @@ def run_case(case, ctx):
 
         with warnings.catch_warnings():
             warnings.simplefilter("ignore")
-            g2 = ux.Grid(build.grid_from_mesh(mesh)._ds, source_grid_spec="UGRID")
+            g2 = ux.Grid(mk(mesh)._ds, source_grid_spec="UGRID")
         expect = False
     else:
         m2, expect = _variant_mesh(mesh, v)
-        g2 = build.grid_from_mesh(m2)
+        g2 = mk(m2)
 
     e12, e21 = (g1 == g2), (g2 == g1)
     n12, n21 = (g1 != g2), (g2 != g1)
